@@ -53,6 +53,10 @@ pub enum ROp {
     /// crash ops (C14): n = buf_len + 1 + extra, panic expected and caught
     AdvancePast(usize),
     AdvanceWithBufPast(usize),
+    /// crash op (C14): a refill with a chunk size that cannot be allocated on top of the buffered
+    /// data (`isize::MAX - buf_len + 1 + j % buf_len`): `capacity overflow` panic expected and
+    /// caught, the chunk size is set back afterwards; a no-op with an empty window
+    RefillOverflow(usize),
 }
 
 #[derive(Clone, Debug)]
@@ -120,7 +124,7 @@ fn gen_ops(rng: &mut Rng, data_len: usize, crash: bool) -> Vec<ROp> {
     };
     let w_crash = if crash { 3 } else { 0 };
     for _ in 0..nops {
-        let k = rng.weighted(&[14, 6, 8, 8, 12, 6, 6, 4, 8, 3, 3, 3, w_crash, w_crash]);
+        let k = rng.weighted(&[14, 6, 8, 8, 12, 6, 6, 4, 8, 3, 3, 3, w_crash, w_crash, w_crash / 3]);
         ops.push(match k {
             0 => {
                 if rng.chance(1, 150) {
@@ -158,7 +162,8 @@ fn gen_ops(rng: &mut Rng, data_len: usize, crash: bool) -> Vec<ROp> {
             10 => ROp::SetChunk(pick_chunk(rng)),
             11 => ROp::CheckIoError,
             12 => ROp::AdvancePast(past_amount(rng, data_len)),
-            _ => ROp::AdvanceWithBufPast(past_amount(rng, data_len)),
+            13 => ROp::AdvanceWithBufPast(past_amount(rng, data_len)),
+            _ => ROp::RefillOverflow(rng.small(64)),
         });
     }
     ops
@@ -463,6 +468,7 @@ fn op_name(op: &ROp) -> String {
         ROp::AdvanceWithBufPast(e) if *e > usize::MAX / 2 => format!("advance_with_buf({e:#x})"),
         ROp::AdvancePast(e) => format!("advance(len+1+{e})"),
         ROp::AdvanceWithBufPast(e) => format!("advance_with_buf(len+1+{e})"),
+        ROp::RefillOverflow(j) => format!("set_chunk_size(isize::MAX-len+1+{j}%len); request_more()"),
     }
 }
 
@@ -482,6 +488,7 @@ fn op_enc(op: &ROp) -> String {
         ROp::CheckIoError => "ce".into(),
         ROp::AdvancePast(e) => format!("xa{e}"),
         ROp::AdvanceWithBufPast(e) => format!("xw{e}"),
+        ROp::RefillOverflow(j) => format!("xo{j}"),
     }
 }
 
@@ -506,6 +513,7 @@ fn op_dec(s: &str) -> Option<ROp> {
         "ce" => ROp::CheckIoError,
         "xa" => ROp::AdvancePast(n()?),
         "xw" => ROp::AdvanceWithBufPast(n()?),
+        "xo" => ROp::RefillOverflow(n()?),
         _ => return None,
     })
 }
@@ -737,8 +745,21 @@ impl Prop for ReaderProp {
                         let _ = r.advance_with_buf(past_n(len_before, e)).len();
                         None
                     }
+                    ROp::RefillOverflow(j) => {
+                        if len_before == 0 {
+                            None
+                        } else {
+                            r.set_chunk_size((isize::MAX as usize) - len_before + 1 + j % len_before);
+                            let b = r.request_more();
+                            Some(("more", format!("{b}"), String::new()))
+                        }
+                    }
                 }
             });
+            if let ROp::RefillOverflow(_) = op {
+                // (also after the caught panic) back to the chunk size the model knows
+                r.set_chunk_size(m.chunk);
+            }
             let _ = data_ref;
 
             // what happened at the source during this op
@@ -761,6 +782,14 @@ impl Prop for ReaderProp {
             st.steps += calls.len() as u64;
             if matches!(op, ROp::AdvancePast(_) | ROp::AdvanceWithBufPast(_)) {
                 expect_panic = true;
+            }
+            if matches!(op, ROp::RefillOverflow(_)) && len_before > 0 {
+                // (a reader that is already complete returns false instead; the source having ended
+                // does not imply that: a BufReader in between may have swallowed the end)
+                expect_panic = true;
+                if !complete_before {
+                    st.hit("fault.refill_with_unallocatable_chunk");
+                }
             }
 
             match outcome {
@@ -918,6 +947,23 @@ impl Prop for ReaderProp {
                         ROp::AdvancePast(_) | ROp::AdvanceWithBufPast(_) => {
                             // did not panic: the state must at least be unchanged (checked below)
                             st.hit("note.advance_past_did_not_panic");
+                        }
+                        ROp::RefillOverflow(_) => {
+                            // no panic (nothing left to read, empty window, or code that bounds the
+                            // chunk size): an ordinary refill as far as the model is concerned
+                            if let Some((_, l, _)) = &ret {
+                                let expect = !complete_before;
+                                if *l != format!("{expect}") {
+                                    res_violation = viol(
+                                        self.check_name("result"),
+                                        "request_more() return value wrong".into(),
+                                        ctx(format!("returned {l}, expected {expect}")),
+                                    );
+                                }
+                                if !complete_before {
+                                    st.hit("note.unallocatable_refill_did_not_panic");
+                                }
+                            }
                         }
                     }
                 }
